@@ -146,7 +146,9 @@ SPEC = {
         "rest of the quadrant only C14_announced_in_quadrant (nothing is stored, rows without metadata are decoded with "
         "the columns of preparation; all connections without the extension) is proved",
         "the class tags of F17 / F25 rest on theorems: C14_stale_check_tag_sound, C14_plain_node_check_sound, "
-        "C14_plain_node_check_spec, C14_known_classb_sound, C14_known_class_prepb_sound",
+        "C14_plain_node_check_spec, C14_known_classb_sound, C14_known_class_prepb_sound; the mismatch predicate, the "
+        "presented-id check and the caller's raw / typed row views rest on <-> theorems (round 4): C14_prop_exec_ok_iff, "
+        "C14_present_ok_iff, C14_chunk_rows_spec, C14_decode_rows_spec, C14_typed_view_iff (42 theorems, 28 Examples)",
         "environment: only session / mock-cluster start failures, exec:* request errors (timeout, empty plan, pool), "
         "routing to an unexpected node and incomplete PREPARE rounds are counted not-run (cap max(3, 1%)); a runner "
         "panic, a malformed case, lost pager rows are errors / violations",
